@@ -345,7 +345,8 @@ def cfgOf (j : J) : Cfg :=
       listCloneSealed := (j.getBool? "f17").getD true,
       detachOnRemove := (j.getBool? "f33").getD true,
       insertCopiesOwn := (j.getBool? "f79").getD true,
-      notifyBulk := (j.getBool? "bulk").getD true }
+      notifyBulk := (j.getBool? "bulk").getD true,
+      sliceAtTarget := (j.getBool? "f225").getD false }
 
 def outcomeToJ : Outcome → J
   | .ok => .str "ok"
